@@ -89,6 +89,7 @@ class Rig:
         d = ula.total_delay(self.mname, st.T, res.cycles, self.odd)
         out = []
         regs = {}
+        self.last_T = {}
         for k, sim in self.sims.items():
             del self.tracers[k].log[:]
             simh.load_state(sim, st)
@@ -96,6 +97,7 @@ class Rig:
             sim.run(st.PC)
             r = sim.registers
             regs[k] = [int(v) for v in r]
+            self.last_T[k] = int(r[simh.RIDX['T']])
             want_t = exp.T + (d if k != 'py' else 0)
             for n in simh.NAMES:
                 got = int(r[simh.RIDX[n]])
@@ -162,6 +164,23 @@ PCS_48 = (0x8000, 0x5000, 0x7FFE)
 PCS_128 = (0x8000, 0x5000, 0xC000, 0xBFFE)
 
 
+def _predecrement_bc(rig, st, res, d, diffs):
+    """True if the only disagreement is the one of known finding F38: a repeating OTIR/OTDR whose five trailing
+    internal cycles were contended as if the address bus still showed BC from before B was decremented, and B's
+    decrement moved BC across a contention boundary.  Every other disagreement on OTIR/OTDR stays a violation."""
+    cyc = list(res.cycles)
+    if len(cyc) < 6 or any(c[0] == 'io' or c[1] != 1 or c[0] != cyc[-1][0] for c in cyc[-5:]):
+        return False
+    if not all(': T delta ' in x for x in diffs):
+        return False
+    old_bc = (cyc[-1][0] + 256) & 0xFFFF
+    alt = ula.total_delay(rig.mname, st.T, cyc[:-5] + [(old_bc, 1)] * 5, rig.odd)
+    if alt == d:
+        return False
+    want = st.T + res.tstates + alt
+    return all(rig.last_T[k] == want for k in ('pycmio', 'ccmio')) and len(diffs) == 2
+
+
 def _shard(shard, nshards, tier, seed):
     stats = core.Stats(PROPERTY)
     quick = tier == 'quick'
@@ -213,10 +232,17 @@ def _shard(shard, nshards, tier, seed):
                     code = (code0[0], n1, n2, 0x56)
                 ins = z80ref.decode(list(code) + [0] * 4, 0)
                 uses_ir = ins.op in ('add16', 'adcsbc16', 'incdec16', 'ld_sp_rr', 'push', 'rst', 'ret', 'djnz', 'ld_ir_a', 'ld_a_ir', 'block')
-                for I in (ivals if uses_ir else ivals[:1]):
+                # block instructions: also the terminating cases (BC = 1, B = 1) and, for CPI/CPD/CPIR/CPDR, A = (HL)
+                variants = ((rname, rset, False),)
+                if ins.op == 'block':
+                    variants += ((rname + '+bc1', dict(rset, B=0, C=1), False), (rname + '+b1', dict(rset, B=1), False),
+                                 (rname + '+match', rset, True), (rname + '+match+bc1', dict(rset, B=0, C=1), True))
+                for I, (rname, rset, match) in itertools.product(ivals if uses_ir else ivals[:1], variants):
                     for F in ((0x00, 0xFF) if ins.op in ('jr', 'jp', 'call', 'ret', 'djnz', 'block') else (0x00,)):
                         for t in pos:
                             st = z80ref.State(PC=pc, T=t, I=I, R=0x10, F=F, IFF=0, IM=1, **rset)
+                            if match:
+                                rig.poke(rset['H'] * 256 + rset['L'], (rset['A'],))
                             rig.poke(pc, code)
                             res, d, diffs = rig.case(st)
                             rig.restore()
@@ -235,9 +261,12 @@ def _shard(shard, nshards, tier, seed):
                             if diffs:
                                 cid = 'slot/{}{}/{}@{:04X}/{}/I{:02X}/F{:02X}/t{}'.format(
                                     machine, 'odd' if odd else '', ''.join('%02X' % b for b in code), pc, rname, I, F, t)
-                                stats.violation(cid, {'machine': machine, 'odd': odd, 'code': list(code), 'pc': pc, 'regs': rset, 'I': I, 'F': F, 't': t},
+                                tags = {'part': 'slot', 'machine': machine, 'odd': odd, 'op': ins.op, 'b0': code[0], 'b1': code[1]}
+                                if ins.text in ('OTIR', 'OTDR') and _predecrement_bc(rig, st, res, d, diffs):
+                                    tags['otir_predecrement_bc'] = True
+                                stats.violation(cid, {'machine': machine, 'odd': odd, 'code': list(code), 'pc': pc, 'regs': rset, 'I': I, 'F': F, 't': t, 'match': match},
                                                 '{}: {}'.format(ins.text, '; '.join(diffs[:3])),
-                                                tags={'part': 'slot', 'machine': machine, 'odd': odd, 'op': ins.op, 'b0': code[0], 'b1': code[1]},
+                                                tags=tags,
                                                 order=10**6 * (mi + 1) + si)
                 stats.state((machine, odd, ins.op, pc, rname, n2))
             stats.nontriv((machine, odd, code0[0], code0[1], code0[3]))
@@ -252,7 +281,7 @@ def run(tier, seed):
     meta = dict(
         rule='(i) both delay tables complete: one NOP in contended memory at every frame position (69888 + 2 x 70908); (ii) every opcode slot x 2 '
              'operand fillings x PC placement {{uncontended, contended, straddling 0x7FFE/0xBFFE, 0xC000}} x register/stack/port placement sets x I '
-             '(for instructions with refresh-address cycles) x both condition outcomes x frame positions ({} per machine: every phase of the pattern '
+             '(for instructions with refresh-address cycles) x both condition outcomes (block instructions: also BC=1, B=1 and A=(HL)) x frame positions ({} per machine: every phase of the pattern '
              'at both ends of the window, first/middle/last line, frame edges) on 48K, 128K even bank, 128K odd bank; oracle = z80ref bus cycles + '
              'ula.delay. states = distinct (machine, op class, placement) classes; non-trivial = distinct slots per machine'.format(
                  len(positions('48K', tier))),
@@ -273,6 +302,8 @@ def replay(case):
     if not case['regs']:
         st.SP = 0x9000
         st.R = 0
+    if case.get('match'):
+        rig.poke(case['regs']['H'] * 256 + case['regs']['L'], (case['regs']['A'],))
     rig.poke(case['pc'], tuple(case['code']))
     res, d, diffs = rig.case(st)
     return diffs
